@@ -98,6 +98,12 @@ def signatures(hist, divs, api):
     indexed = {"id": tv != "plain", "a": tv in ("uniq", "all"), "b": tv in ("idx", "all")}
     bulk = op["k"] in ("bulk", "bulk_ai")
     what = api if bulk else op["k"]
+    # the cached prepared-INSERT path has a recorded defect for descending / repeating / generated keys; a plain
+    # ascending batch of distinct keys is outside it and keeps its own signatures
+    clean_asc = (op["k"] == "bulk" and op["d"]["ord"] == "asc" and not op["d"]["dupAt"] and not op["d"]["nullAt"] and len(hist) == 1)
+    what_pk = what        # used for what goes through the PRIMARY KEY index only (its keys ARE ascending and distinct in such a batch)
+    if bulk and api == "insert_cached" and clean_asc:
+        what_pk = "insert_cached[ascending_distinct_keys_into_empty_table]"
     used = [p["op"].get("api") for p in hist[:-1] if p["op"]["k"] in ("bulk", "bulk_ai")]
     ctx = "" if bulk else ":after:" + (used[-1] if used else "-")          # the bulk call made last before this statement
     out = []
@@ -129,12 +135,12 @@ def signatures(hist, divs, api):
         elif k == "lookup":
             no, ne = d.get("n_observed"), d.get("n_expected")
             how = "error" if no is None else ("misses_rows" if no < ne else "returns_rows_the_scan_does_not_show" if no > ne else "returns_other_rows")
-            out.append("lookup:%s:by_%s:%s:%s%s" % (what, d["by"], "index_path" if indexed[d["by"]] else "scan_path", how, ctx))
+            out.append("lookup:%s:by_%s:%s:%s%s" % (what_pk if d["by"] == "id" else what, d["by"], "index_path" if indexed[d["by"]] else "scan_path", how, ctx))
         elif k == "probe":
             if d["name"] == "next_ai":
                 out.append("next_auto_increment_value:%s%s" % (what, ctx))
             elif d.get("expected_ok") is False:
-                out.append("constraint_not_enforced_after:%s:%s%s" % (what, d["name"], ctx))
+                out.append("constraint_not_enforced_after:%s:%s%s" % (what_pk if d["name"] == "dup_pk" else what, d["name"], ctx))
             else:
                 out.append("later_insert_rejected_after:%s%s" % (what, ctx))
         else:
